@@ -22,7 +22,7 @@ Qed.
 
 Lemma starts_app x post q bc br : seek x q = bc ++ br -> starts (x ++ post) q bc.
 Proof.
-  unfold starts, seek. intros H. rewrite skipn_app, H, <- app_assoc. eauto.
+  unfold starts. rewrite !seek_unfold. intros H. rewrite skipn_app, H, <- app_assoc. eauto.
 Qed.
 
 Lemma iota_length n : forall i, length (iota n i) = n.
